@@ -27,6 +27,11 @@
                                                   (paging_pointer_terminated_counterexample), re-targeting
                                                   (stream_bounded_retarget_counterexample); a record naming a finished /
                                                   unknown gauge is skipped by the code (LiveS).
+                                                  GAUGE SIDE: FALSE of the code, inside the quantifier — a gauge that
+                                                  distributes nothing in the call it is funded in is not written back, its
+                                                  share is stranded; which block serves it depends on the limit:
+                                                  paging_gauge_side_counterexample (known finding
+                                                  C15/stream_hands_to_gauges/share-moved-gauge-not-credited).
                                                   Whole blocks: begin_block_pays_exactly, end_block_pays_exactly.
     exact amounts (state level) ................ distribute_pays_exactly, distribute_gauges_exactly, endBlock_pays_exactly, end_step_pays_exactly,
                                                   asset_due_is_sum_of_lockRewards (what an account gains in a distribution
@@ -457,6 +462,32 @@ theorem paging_state_independent (s : State) (e : Nat) (he : e ≤ 2) (hi : Inv 
       unfold Stream.atEpochEnd; split <;> rfl
     rw [e1, e2, q1 i, q2 i]
     exact ⟨rfl, rfl⟩
+
+/-- THE GAUGE SIDE of the clause —
+      ∀ ops mi mi', Admissible ops → (run (init now mi) ops).gauges.map (·.coins) = (run (init now mi') ops).gauges.map (·.coins)
+    (`Admissible`, §5: every op well-formed, no governance re-targeting)
+    — is FALSE of the code, inside the property's quantifier (gauges, a stream, a lock arriving between two blocks,
+    limits 1 and 500; no governance).  x/incentives `Distribute` writes a gauge handed in by the streamer back only
+    when it distributes something in the same call; gauge 2 (denom 1) has no qualifying lock when the stream's share
+    reaches it with limit 500 (first block of the epoch) — its 2000 are stranded in the incentives account and
+    account 2 is never paid; with limit 1 it is served one block later, after the lock: it receives 2000 and pays
+    account 2.  The stream side is the same in both runs (4000 handed out), as `paging_state_independent` says. -/
+def strandedHistory (mi : Nat) : List Op :=
+  [.setMaxIter mi, .begin 1, .end_, .createGauge 0 true 0 3600 true [] 101 1, .createGauge 0 true 1 3600 true [] 101 1,
+   .locks [⟨1, 0, 100, 3600⟩],
+   .fund streamerAddr [4000], .createStream false [4000] [⟨1, 1⟩, ⟨2, 1⟩] 101 1 2,
+   .begin 3601, .end_, .begin 3601, .end_, .locks [⟨1, 0, 100, 3600⟩, ⟨2, 1, 50, 3600⟩], .begin 10, .end_, .begin 10, .end_,
+   .begin 3601, .end_, .begin 3601, .end_]
+
+theorem paging_gauge_side_counterexample :
+    (run (init 100 500) (strandedHistory 1)).gauges.map (fun g => (g.coins, g.distributed)) = [([2000], [2000]), ([2000], [2000])] ∧
+    (run (init 100 500) (strandedHistory 500)).gauges.map (fun g => (g.coins, g.distributed)) = [([2000], [2000]), ([], [])] ∧
+    (run (init 100 500) (strandedHistory 1)).bank.get 2 = [2000] ∧ (run (init 100 500) (strandedHistory 500)).bank.get 2 = [] ∧
+    (run (init 100 500) (strandedHistory 500)).bank.get incAddr = [2000] ∧
+    (run (init 100 500) (strandedHistory 1)).streams.map (fun s => (s.distributed, s.filled)) = [([4000], 2)] ∧
+    (run (init 100 500) (strandedHistory 500)).streams.map (fun s => (s.distributed, s.filled)) = [([4000], 2)] ∧
+    (∀ op ∈ strandedHistory 1, op.wf ∧ op.wfS ∧ op.noRetarget) ∧ (∀ op ∈ strandedHistory 500, op.wf ∧ op.wfS ∧ op.noRetarget) := by
+  refine ⟨by decide, by decide, by decide, by decide, by decide, by decide, by decide, by decide, by decide⟩
 
 /-- the excluded case `¬ PtrsOKS`: stream 1 is terminated while the `hour` pointer points into it (stream 1, gauge 2);
     `NewStreamIterator` bisects to stream 2 but keeps gauge id 2, so stream 2's gauge 1 is skipped and never served:
